@@ -8,6 +8,8 @@ namespace BreezyVerif.C19
 theorem sentinel_gen_eq : sentinelGen = sentinel := by decide
 theorem replacement_gen_eq : replacementGen = lt7 := by decide
 theorem base_marker_gen_eq : baseMarkerGen = bar7 := by decide
+/-- the byte appended by `start_marker += b"!"` is the one `extendMarker` appends -/
+theorem extension_gen_eq : extensionGen = [33] := by decide
 theorem names_gen_eq : nameAGen = nameA ∧ nameBGen = nameB ∧ nameBaseGen = nameBase := by decide
 
 end BreezyVerif.C19
